@@ -64,6 +64,11 @@ def make_jobs(prop, tier, seed):
     if prop == "C12":
         for j in range(4 if tier == "quick" else 24):
             jobs.append({"kind": "explore", "side": "batch", "prop": prop, "seed": seed * 15485863 + j, "scenarios": 8, "schedules": 4, "no_driver": True})
+    if tier == "thorough":
+        for j in range(24):
+            jobs.append({"kind": "pbound", "prop": prop, "seed": seed * 104729 + j, "k": 2, "budget": 1200})
+    else:
+        jobs.append({"kind": "pbound", "prop": prop, "seed": seed * 104729, "k": 1, "budget": 100})
     return jobs
 
 
@@ -72,6 +77,8 @@ def search_jobs(prop, tier, seed, corr_fail):
 
 
 def run_job(job):
+    if job["kind"] == "pbound":
+        return plug.pbound_job(MODEL, plug.smallest_of(gen), job)
     if job.get("side") == "batch":
         return plug.std_job(MODELB, genb, job)
     rp = (job.get("replay") or {}).get("replay") or job.get("replay") or (job.get("failure") or {}).get("replay") or {}
